@@ -9,17 +9,17 @@ def job(name, props, unwind=26, tier="quick", timeout=900, entries=8):
     out.append("job tb_%s\n  props %s\n  harness h_%s\n  unwind %d complete constant trip counts; entry loops bounded by the input length\n  unwindset ReadEntries %d\n  unwindset ::dec( %d\n  tier %s\n  timeout %d\n" % (name, props, name, unwind, entries, entries, tier, timeout))
 job("enc_tw", "C03 C06")
 job("enc_tr1", "C03 C06")
-job("enc_tn", "C03 C06")
+job("enc_tn", "C03 C06", tier="thorough")
 job("dec_tw_ped", "C08 C04 C02 C11", entries=5)
 job("dec_tw_ped14", "C08 C04 C02 C11", entries=8, tier="thorough", timeout=7200)
 job("dec_tw_buf", "C08 C04 C02", tier="thorough")
 job("dec_tw_bnd", "C08 C04 C02", tier="thorough")
-job("dec_tr1_ped", "C08 C04 C02 C11", entries=5)
+job("dec_tr1_ped", "C08 C04 C02 C11", entries=5, tier="thorough", timeout=3000)
 job("dec_tn_ped", "C08 C04 C02 C11", tier="thorough", timeout=3000)
 job("trunc_tw_ped", "C05", entries=5)
 job("trunc_tw_buf", "C05", tier="thorough")
 job("trunc_tr1_ped", "C05", entries=5)
-job("rt_tw_ped_ped", "C01", entries=4)
+job("rt_tw_ped_ped", "C01", entries=4, tier="thorough", timeout=3000)
 job("rt_tn_ped_ped", "C01", tier="thorough", timeout=3600)
 job("cap_tw_bw", "C06")
 job("faultw_tw", "C10")
